@@ -39,12 +39,13 @@ type wpRun struct {
 	bid  string
 	step int
 
-	w      *sim.World
-	local  *sim.Node
-	ref    *sim.StoreRef
-	remote *sim.Node
-	rref   *sim.StoreRef
-	addr   string
+	w       *sim.World
+	local   *sim.Node
+	ref     *sim.StoreRef
+	remote  *sim.Node
+	remote2 *sim.Node
+	rref    *sim.StoreRef
+	addr    string
 
 	rEntries     []ipfslog.Entry // remote chain
 	ids          map[string]int  // hash -> spec id (remote: 1.., local: 100+g)
@@ -79,7 +80,7 @@ func (r *wpRun) setup(tag string) error {
 	if r.remote, err = rp.Start(""); err != nil {
 		return err
 	}
-	ac := sim.AccessFor([]string{r.local.DB.Identity().ID, r.remote.DB.Identity().ID})
+	ac := sim.AccessFor([]string{"*"})
 	if r.ref, err = r.local.Open("wp-"+tag, "keyvalue", &orbitdb.CreateDBOptions{AccessController: ac}); err != nil {
 		return err
 	}
@@ -89,9 +90,22 @@ func (r *wpRun) setup(tag string) error {
 	}
 	r.ids, r.keyOf = map[string]int{}, map[int]string{}
 	r.retErr, r.returned = map[int]error{}, map[int]bool{}
-	kv := r.rref.S.(orbitdb.KeyValueStore)
+	// two remote writers: entry 2 is written by the second one without having seen entry 1;
+	// every other entry by the first one (spec constant RemotePar: 1:{} 2:{} 3:{1})
+	rp2 := r.w.AddPeer(tag + "-remote2")
+	if r.remote2, err = rp2.Start(""); err != nil {
+		return err
+	}
+	rref2, err := r.remote2.Open(r.addr, "keyvalue", nil)
+	if err != nil {
+		return err
+	}
 	for i := 1; i <= r.in.Remote; i++ {
 		key := fmt.Sprintf("r%d", i)
+		kv := r.rref.S.(orbitdb.KeyValueStore)
+		if i == 2 {
+			kv = rref2.S.(orbitdb.KeyValueStore)
+		}
 		op, err := kv.Put(context.Background(), key, []byte(key))
 		if err != nil {
 			return err
@@ -120,6 +134,9 @@ func (r *wpRun) teardown() {
 	}
 	if r.remote != nil {
 		_ = r.remote.Close()
+	}
+	if r.remote2 != nil {
+		_ = r.remote2.Close()
 	}
 }
 
@@ -458,8 +475,11 @@ func (r *wpRun) apply(st Step) error {
 				have++
 			}
 		}
-		head := r.rEntries[have+k-1]
-		if err := r.ref.S.Sync(context.Background(), []ipfslog.Entry{copyEntry(head)}); err != nil {
+		batch := []ipfslog.Entry{}
+		for _, e := range r.rEntries[have : have+k] {
+			batch = append(batch, copyEntry(e))
+		}
+		if err := r.ref.S.Sync(context.Background(), batch); err != nil {
 			return err
 		}
 		if r.storePark("join.begin", d) == nil {
